@@ -4,7 +4,7 @@ NOT_APPLICABLE = {
 }
 CLAIMS = {
     "C01": {
-        "text": "Partial. Machine-checked for all inputs: the viewBox->font-space affine (em-height scale, centring in the advance, y flip at the ascender, user transform last), the advance rule, the composition order of gradientTransform / bounding-box / font maps, mapping of linear and radial gradient geometry (with the uniform/residual split), the transform encoder, and the affine-covariance lemmas that turn 'geometry mapped by T' into 'same colour at corresponding points'. The composition of these links into 'same picture' is prose (DESIGN.md section 4 C01); SVG parsing, ufo2ft/fontTools compilation and rendering are assumed.",
+        "text": "Partial. Machine-checked for all inputs: the viewBox->font-space affine (em-height scale, centring in the advance, y flip at the ascender, user transform last), the advance rule, the composition order of gradientTransform / bounding-box / font maps, mapping of linear and radial gradient geometry (with the uniform/residual split), the transform encoder, a gradient's colour line (stops in document order, offsets as SVG reads them: clamped and non-decreasing, spread method; 1-3 stops, finite scope), and the affine-covariance lemmas that turn 'geometry mapped by T' into 'same colour at corresponding points'. The composition of these links into 'same picture' is prose (DESIGN.md section 4 C01); SVG parsing, ufo2ft/fontTools compilation and rendering are assumed.",
         "note": "A-real; picosvg SVG parsing/normal form, SVGLinearGradient/SVGRadialGradient.from_element, Affine2D.fromstring, ufo2ft COLR builder, fontTools compile and COLRv1 rendering semantics are assumed; tree traversal and lxml-facing functions are covered by the bounded tier only.",
         "design_ref": "DESIGN.md section 4 C01",
     },
@@ -34,7 +34,7 @@ CLAIMS = {
         "design_ref": "DESIGN.md section 4 C17",
     },
     "C20": {
-        "text": "Partial. Discharged for all inputs: flag > file > default precedence, config.validate, the viewBox maps' use of the user transform and metrics, ppem, clip-box quantisation. Bounded: write->load identity and flag precedence end to end; fonts built with random option values carry family, upem, ascender/descender/linegap in hhea and OS/2 with USE_TYPO_METRICS, version, post format, tables per colour format, advance rule, space width and clip-box step.  Multi-configuration invocations (shared intermediates) are not covered yet.",
+        "text": "Partial. Discharged for all inputs: flag > file > default precedence, config.validate, the viewBox maps' use of the user transform and metrics, ppem, clip-box quantisation. Bounded: write->load identity and flag precedence end to end; fonts built with random option values carry family, upem, ascender/descender/linegap in hhea and OS/2 with USE_TYPO_METRICS, version, post format, tables per colour format, advance rule, space width and clip-box step.  Multi-configuration invocations: the build graph of two configurations (own intermediates, declared inputs; findings F4, F8, F10 pinned) and of two to four configurations whose sources share a basename (each glyph map derived from its own sources); bitmap_resolution and variable-font post format through the real CLI.",
         "note": "ufo2ft info->tables assumed; driver-level build graph (nanoemoji.py) not under contract.",
         "design_ref": "DESIGN.md section 4 C20",
     },
@@ -62,13 +62,13 @@ CLAIMS = {
     },
     "C12": {
         "text": "Bounded only: the real maximum_color pipeline (ninja, offline) is run on generated COLRv1 / COLRv0 / OT-SVG fonts; the written font must keep the character map and advances, keep the original colour table and add the complementary one (and CBDT/CBLC with --bitmaps, one bitmap per colour glyph), keep or strip glyph names as requested, and for every colour glyph the COLR and SVG tables must paint the same picture as the input for the glyph reached from the same codepoint (sampling with the COLR and SVG evaluators of contracts/e2e.py).",
-        "note": "8 stratified pipeline runs quick / 80 thorough (COLRv1/COLRv0/OT-SVG inputs, kern+mark features compared by codepoint, metrics variety, shared shapes, translucent foreground colour, --bitmaps, other hash seeds) plus glue_together._copy_cbdt on fonts with interrupted glyph-id runs; glue_together's bookkeeping loops are not under a deductive contract.",
+        "note": "8 stratified pipeline runs quick / 80 thorough (COLRv1/COLRv0/OT-SVG inputs, kern+mark features compared by codepoint, metrics variety incl. hhea / win metrics unlike the typo metrics, shared shapes, translucent foreground colour, --bitmaps, other hash seeds) plus glue_together._copy_cbdt on fonts with interrupted glyph-id runs; glue_together's bookkeeping loops are not under a deductive contract.",
         "design_ref": "DESIGN.md B.1, section 4 C12",
         "category": "other",
         "technique": "bounded native stand-in (real maximum_color pipeline on generated fonts, picture comparison by sampling); no deductive claim",
     },
     "C10": {
-        "text": "Partial. Discharged for all inputs: flag > file > default precedence of _pop_flag (int, str and None-default options), config.validate's rejection conditions. Bounded (native execution of the real functions on generated inputs, stated bounds): config write->load field-for-field, flag precedence end to end, glyph-map CSV rows, file-name -> codepoints, glyph names legal and distinct, feature rules, parts JSON, response files. Known findings K7 (toml strings), K8 (leading blank in a path), F6 (g_ prefix collision) are excluded by their witness classes and re-executed on every run.",
+        "text": "Partial. Discharged for all inputs: flag > file > default precedence of _pop_flag (int, str and None-default options), config.validate's rejection conditions. Bounded (native execution of the real functions on generated inputs, stated bounds): config write->load field-for-field, flag precedence end to end, glyph-map CSV rows, file-name -> codepoints, glyph names legal and distinct, feature rules, parts JSON, response files. Also bounded: multi-axis / multi-master configurations through write -> load including every master's source list for file names with glob / shell / TOML metacharacters, and the one-master configuration of the UFO step; the name-token lemma (exhaustive over all code points: tokens legal, letters kept, no two code points share a token). Known findings K7 (toml strings), K8 (leading blank in a path), F6 (g_ prefix collision), K11 (derived output_ufo of the UFO-step configuration) are excluded by their witness classes and re-executed on every run.",
         "note": "toml, csv, regex, json, shlex, hashlib are dependencies; string-level functions are outside the proved subset (bounded tier only).",
         "design_ref": "DESIGN.md section 4 C10",
     },
@@ -79,7 +79,7 @@ CLAIMS = {
         "category": "other",
     },
     "C13": {
-        "text": "Partial. Discharged for all inputs: every transform paint's gettransform equals the COLR specification's affine; font->viewBox map is the inverse of the C01 placement; _apply_transform conjugates by the font->viewBox map and resets the transform; palette entry -> colour (foreground -> currentColor, CPAL alpha x paint alpha, index kept iff multi-palette, out of range raises); uniform/residual split of radial gradients. Bounded: generated COLRv1 fonts converted by colr_to_svg and compared by sampling against a COLR evaluator. Also discharged per paint format: _colr_v1_paint_to_svg transform accounting (written o passed-down == pending o own, hence by induction over the acyclic paint graph every leaf is drawn through the product of the transforms on its path, once), group opacity iff SRC_IN over a black solid and otherwise a warning; finite scope: layer runs, _apply_gradient_ot_paint (linear: all three points through pending-then-viewBox; radial: circles through the uniform part, residual as gradientTransform; colour line kept), _apply_solid_ot_paint.",
+        "text": "Partial. Discharged for all inputs: every transform paint's gettransform equals the COLR specification's affine; font->viewBox map is the inverse of the C01 placement; _apply_transform conjugates by the font->viewBox map and resets the transform; palette entry -> colour (foreground -> currentColor, CPAL alpha x paint alpha, index kept iff multi-palette, out of range raises); uniform/residual split of radial gradients. Bounded: generated COLRv1 fonts converted by colr_to_svg and compared by sampling against a COLR evaluator (colour lines tile their defined interval), including hand-made graphs: colour-glyph references under transforms, graphs clipped by an outline. Known finding F21 (repeat / reflect over stops that do not span [0, 1]) is pinned by its witness. Also discharged per paint format: _colr_v1_paint_to_svg transform accounting (written o passed-down == pending o own, hence by induction over the acyclic paint graph every leaf is drawn through the product of the transforms on its path, once), a PaintGlyph over a fill is a <path>, over anything else a <g> clipped by the outline (fill-or-graph decided by _is_fill, summarised by a ghost predicate and checked on chains of up to three transforms), group opacity iff SRC_IN over a black solid and otherwise a warning; finite scope: layer runs, _apply_gradient_ot_paint (linear: all three points through pending-then-viewBox; radial: circles through the uniform part, residual as gradientTransform; colour line kept), _apply_solid_ot_paint.",
         "note": "lxml document assembly, SVGPathPen and fontTools glyph drawing are bounded-tier only; trigonometric functions uninterpreted; SVG renderer semantics assumed as implemented in contracts/e2e.py.",
         "design_ref": "DESIGN.md section 4 C13",
     },
